@@ -101,10 +101,14 @@ def old(X, st, e):
 @spec
 def entry(X, st, e):
     """value of a local at loop entry"""
-    n = e.args[0].id
-    if n not in st.meta.get("entry_env", {}):
-        raise VCError(f"entry({n}): not bound at loop entry")
-    return st.meta["entry_env"][n]
+    if isinstance(e.args[0], ast.Name):
+        n = e.args[0].id
+        if n not in st.meta.get("entry_env", {}):
+            raise VCError(f"entry({n}): not bound at loop entry")
+        return st.meta["entry_env"][n]
+    env = dict(st.env)
+    env.update(st.meta.get("entry_env", {}))
+    return X.ev(e.args[0], _with_heap(st, st.meta["entry_heap"], env))
 
 
 @spec
@@ -171,8 +175,12 @@ def wsum_mono(X, st, e):
     L = X.ev(e.args[0], st)
     f = wsum_fn(X, st, L)
     n = X.llen(st, L)
-    a, b = fresh("a"), fresh("b")
-    return BoolV(z3.ForAll([a, b], z3.Implies(z3.And(0 <= a, a <= b, b <= n), f(a) <= f(b)), patterns=[z3.MultiPattern(f(a), f(b))]))
+    a, b, k = fresh("a"), fresh("b"), fresh("k")
+    wait = X.ctx.enums["MessageType"].index("WAIT")
+    el = st.heap["@el"][L.v]
+    nonneg = z3.ForAll([k], z3.Implies(z3.And(0 <= k, k < n, st.heap["message_type"][el[k]] == wait), st.heap["time"][el[k]] >= 0))
+    mono = z3.ForAll([a, b], z3.Implies(z3.And(0 <= a, a <= b, b <= n), f(a) <= f(b)), patterns=[z3.MultiPattern(f(a), f(b))])
+    return BoolV(z3.Implies(nonneg, mono))
 
 
 @spec
